@@ -125,6 +125,7 @@ type conv struct {
 	History        []string    `json:"history"`
 	tainted        bool
 	sharedHeaders  bool // the caller reuses one header map per host across its sequential calls
+	usual          authsim.Set // the desired scope of most of this caller's requests
 	usedNewRefresh map[string]bool
 	newRefresh     map[string]bool
 }
@@ -134,6 +135,7 @@ var lifeProfiles = [][]int{{-1}, {0}, {60}, {1, 2, 3}, {-1, 0, 1, 2, 3, 60}, {2,
 func newConv(run *evid.Run, rng *rand.Rand) *conv {
 	cv := &conv{run: run, rng: rng, w: authsim.NewWorld(rng), shadow: map[string][]cached{}, usedNewRefresh: map[string]bool{}, newRefresh: map[string]bool{}, sharedHeaders: rng.IntN(2) == 0}
 	w := cv.w
+	cv.usual = authsim.MaskSet(rng.IntN(1<<len(authsim.Atoms)) | 3<<(len(authsim.Atoms)-2)*rng.IntN(2))
 	for _, rh := range []string{realmT1, realmT2} {
 		rl := &authsim.Realm{Host: rh}
 		rl.NoPOST = rng.IntN(10) < 3
@@ -272,6 +274,9 @@ func (cv *conv) genCall() authsim.CallSpec {
 		spec.Desired, spec.NoDesired = authsim.NewSet(), true
 	case x < 50:
 		spec.Desired = authsim.NewSet()
+	case x < 75:
+		// what this caller usually wants: one set, and one Scope value for it, on request after request
+		spec.Desired = cv.usual
 	default:
 		spec.Desired = authsim.MaskSet(rng.IntN(1 << len(authsim.Atoms)))
 	}
